@@ -6,6 +6,7 @@ repository.  Anything outside the fragment raises Unsupported (-> ANALYSIS-ERROR
 from __future__ import annotations
 
 import ast
+import numbers
 from typing import Any, Callable, Optional
 
 from . import pyfacts as P
@@ -127,7 +128,8 @@ class Interp:
         # isinstance(x, <name>) for primitives
         self.type_names = {
             "bool": bool, "int": int, "float": float, "str": str, "tuple": tuple,
-            "numbers.Number": (int, float, complex), "numbers.Real": (int, float), "Number": (int, float, complex),
+            # the ABCs themselves: Fraction and Decimal are Numbers too (Decimal is not a Real)
+            "numbers.Number": numbers.Number, "numbers.Real": numbers.Real, "Number": numbers.Number,
         }
         self.type_names.update(type_names or {})
         self.fuel = fuel
